@@ -140,12 +140,31 @@ def oracles(ctx, deep):
 
     rng = ctx.rng
     for t in range(ctx.n(260, 3000) * (2 if deep else 1)):
-        name, mode, shape, accel, cf = G.random_config(rng)
-        seed = rng.randrange(10**6)
+        base = G.random_config(rng)
+        name, mode, shape, accel, cf = base
+        # the seed the data pipeline passes is a tuple (file name characters); several (acceleration, centre fraction)
+        # pairs make the seeded choice of the pair part of what the two calls must share
+        seed = rng.randrange(10**6) if rng.random() < 0.6 else tuple(rng.randrange(256) for _ in range(rng.randint(1, 12)))
         runs += 1
-        cfg = {"generator": name, "mode": mode, "shape": shape, "acceleration": accel, "center_fraction": cf, "seed": seed}
+        pairs = None
+        if rng.random() < 0.3:
+            multi = G.second_pair(rng, base)
+            if isinstance(multi[3], list):
+                pairs = (multi[3], multi[4])
+        cfg = {"generator": name, "mode": mode, "shape": shape, "acceleration": pairs[0] if pairs else accel, "center_fraction": pairs[1] if pairs else cf, "seed": seed}
         try:
-            mf = G.build(name, accel, cf, mode)
+            mf = G.build(name, pairs[0] if pairs else accel, pairs[1] if pairs else cf, mode)
+            chosen = []
+            if pairs:
+                # observe which pair each call draws (some generators reseed before drawing)
+                orig_choose = mf.choose_acceleration
+
+                def spy():
+                    r_ = orig_choose()
+                    chosen.append(r_)
+                    return r_
+
+                mf.choose_acceleration = spy
         except Exception as e:  # noqa
             add(Violation("generator-constructible", "%s cannot be built: %s" % (name, str(e)[:100]), {"config": cfg}, {"generator": name, "kind": "build"}))
             continue
@@ -153,6 +172,12 @@ def oracles(ctx, deep):
         a = G.call(mf, shape, seed, True, seconds=8)
         if r[0] != "ok" or a[0] != "ok":
             continue  # termination / errors are C04's subject
+        if pairs:
+            if len(chosen) != 2 or chosen[0] != chosen[1]:
+                add(Violation("acs-same-choice", "%s (%s): the sampling-mask call and the ACS call with the same seed draw different (centre fraction, acceleration) pairs: %s" % (name, mode, chosen), {"config": cfg, "pairs_drawn": [list(map(float, c)) for c in chosen]}, {"generator": name, "kind": "acs-choice"}))
+                continue
+            cf, accel = chosen[0]
+            cfg["pair_chosen_by_seed"] = [accel, cf]
         mask, acs = r[1], a[1]
         try:
             inter = acs & ~mask
@@ -187,5 +212,41 @@ def oracles(ctx, deep):
             want = {(x, y) for x in range(rows) for y in range(cols) if (x - cx) ** 2 + (y - cy) ** 2 < r0 * r0}
             if bad or pts != want:
                 add(Violation("acs-disc", "%s (%s, %dx%d, fraction %s): ACS is not the disc of radius %d around the centre sample (%d,%d), point-symmetric about it" % (name, mode, rows, cols, cf, r0, cx, cy), {"config": cfg, "asymmetric": bad[:5], "missing": sorted(want - pts)[:5], "extra": sorted(pts - want)[:5]}, {"generator": name, "kind": "acs-disc"}))
+    # every generator with two (acceleration, centre fraction) pairs and the tuple seeds of the data pipeline: the two calls
+    # draw the same pair, and the ACS is inside the sampling mask
+    for name in G.ALL:
+        for t in range(ctx.n(6, 40) * (2 if deep else 1)):
+            base = G.random_config(rng, names=[name], small=True)
+            multi = G.second_pair(rng, base)
+            if not isinstance(multi[3], list):
+                continue
+            _, mode, shape, accs, cfs = multi
+            seed = tuple(rng.randrange(256) for _ in range(rng.randint(1, 16))) if t % 3 else rng.randrange(10**6)
+            cfg = {"generator": name, "mode": mode, "shape": shape, "acceleration": accs, "center_fraction": cfs, "seed": seed}
+            runs += 1
+            try:
+                mf = G.build(name, accs, cfs, mode)
+            except Exception:  # noqa
+                continue
+            chosen = []
+            orig_choose = mf.choose_acceleration
+
+            def spy2(orig_choose=orig_choose, chosen=chosen):
+                r_ = orig_choose()
+                chosen.append(r_)
+                return r_
+
+            mf.choose_acceleration = spy2
+            r = G.call(mf, shape, seed, False, seconds=8)
+            a = G.call(mf, shape, seed, True, seconds=8)
+            if r[0] != "ok" or a[0] != "ok":
+                continue
+            if len(chosen) != 2 or chosen[0] != chosen[1]:
+                add(Violation("acs-same-choice", "%s (%s): the sampling-mask call and the ACS call with seed %s draw different (centre fraction, acceleration) pairs: %s" % (name, mode, seed, chosen), {"config": cfg, "pairs_drawn": [list(map(float, c)) for c in chosen]}, {"generator": name, "kind": "acs-choice"}))
+            try:
+                if bool((a[1] & ~r[1]).any()):
+                    add(Violation("acs-subset", "%s (%s): with two pairs and seed %s the ACS mask is not contained in the sampling mask" % (name, mode, seed), {"config": cfg}, {"generator": name, "kind": "acs-subset"}))
+            except Exception:  # noqa
+                pass
     ctx.oracle_runs = runs
     return out
